@@ -557,7 +557,7 @@ def run(ctx: Ctx, rep: Report, tier: str) -> None:  # noqa: C901
             rep.violation(st.qualname, "normal path without self.line = ...", "a writable view can return without rebuilding the other views from text", where(st))
 
 
-def rejected_leaves_unchanged(ctx: Ctx, rep: Report, rid: str = "R08.13", targets=(("Port.line.setter", ("_operator",)),)) -> None:
+def rejected_leaves_unchanged(ctx: Ctx, rep: Report, rid: str = "R08.13", targets=(("Port.line.setter", ("_operator",)),), what: str = "", inp: str = "") -> None:
     """A port expression whose new text is refused stays what it was: the operator (which the operand readers consult) is
     stored before the operands are validated, so every way an error can leave the setter after that store passes through
     a statement that puts the old operator back (`old = self._operator` before, `self._operator = old` in the handler) -
@@ -615,7 +615,7 @@ def rejected_leaves_unchanged(ctx: Ctx, rep: Report, rid: str = "R08.13", target
                 if bad is None:
                     rep.ok(f"{q}: {snippet(st.ast, 40)}", f"no error leaves the setter after this store without self.{attr} being put back" if after else "nothing can raise after this store", where=where(f, st.ast))
                 else:
-                    rep.violation(q, f"{snippet(st.ast, 40)} ... {snippet(bad.ast, 40)}", f"self.{attr} is stored before the rest of the new text is validated, and an error raised afterwards leaves the setter without the old value being put back: the refused assignment leaves a hybrid - the new operator over the old operands, ports and range string (`lt 80` with the port set of `eq 80`), which the next write-back turns into another meaning", where(f, st.ast), inp="p = Port('eq 80', protocol='tcp'); p.line = 'lt 1 2'  # ValueError; p.line == 'lt www', p.sport == '80'")
+                    rep.violation(q, f"{snippet(st.ast, 40)} ... {snippet(bad.ast, 40)}", f"self.{attr} is stored before the rest of the new text is validated, and an error raised afterwards leaves the setter without the old value being put back: the refused assignment leaves a hybrid - " + (what or "the new operator over the old operands, ports and range string (`lt 80` with the port set of `eq 80`), which the next write-back turns into another meaning"), where(f, st.ast), inp=inp or "p = Port('eq 80', protocol='tcp'); p.line = 'lt 1 2'  # ValueError; p.line == 'lt www', p.sport == '80'")
 
 
 def operands_are_a_set(ctx: Ctx, rep: Report, rid: str = "R08.14") -> None:
